@@ -296,6 +296,38 @@ def h_strict(h: H):
     h.ensure("STRICT:well-formed-record-passes-validation", not raised, detail=repr(res) if raised else "")
 
 
+def h_strict_second_record(h: H):
+    """BOUNDED in sizes (one integer column, two records): the check applied to a record does not depend on what EARLIER records
+    of the batch looked like - a non-integral float in the second record is rejected whatever the first record holds."""
+    from pyvc.values import SXReal
+    c = h.ctx
+    fname = SStr(c.fresh_str("field_name"))
+    ftype = ["long", "int"][c.choose(2, "field-type")]
+    schema = SObj("Schema", {"schema_id": 1, "fields": PList([PDict({"id": 1, "name": fname, "type": ftype, "required": False})])}, label="schema")
+    k1 = ["int", "none", "missing", "float"][c.choose(4, "first-record-value")]
+    r1 = PDict({})
+    if k1 == "int":
+        r1.sym_items = [(fname, SInt(c.fresh_int("v1")))]
+    elif k1 == "none":
+        r1.sym_items = [(fname, None)]
+    elif k1 == "float":
+        v1 = SXReal(z3.BoolVal(False), z3.IntVal(0), c.fresh("v1_r", z3.RealSort()))
+        h.assume(v1.r == z3.ToReal(z3.ToInt(v1.r)))             # an integral float: accepted
+        r1.sym_items = [(fname, v1)]
+    else:
+        r1.sym_items = []
+    v2 = SXReal(c.fresh_bool("v2_nan"), c.fresh_int("v2_inf"), c.fresh("v2_r", z3.RealSort()))
+    h.assume(z3.And(v2.inf >= -1, v2.inf <= 1))
+    r2 = PDict({})
+    r2.sym_items = [(fname, v2)]
+    h.reg.methods[("float", "is_integer")] = lambda I, r, a, k: SBool(z3.And(z3.Not(r.nan), r.inf == 0, r.r == z3.ToReal(z3.ToInt(r.r)))) if isinstance(r, SXReal) else float(r).is_integer()
+    dfm = SObj("DataFileManager", {}, label="dfm")
+    out, res = h.run(f"{DO}:DataFileManager.validate_records_strict", [dfm, PList([r1, r2]), schema])
+    integral = z3.And(z3.Not(v2.nan), v2.inf == 0, v2.r == z3.ToReal(z3.ToInt(v2.r)))
+    h.ensure("STRICT:a-non-integral-float-in-a-LATER-record-is-rejected-whatever-the-first-record-holds",
+             z3.Implies(z3.Not(integral), z3.BoolVal(out == "raise")), detail=f"first record: {k1}")
+
+
 def _replay_c11(ob):
     fallback = ob.get("verdict") in ("undecided", "scenario")
     return f"FALLBACK = {fallback!r}\n" + '''
@@ -347,6 +379,23 @@ try:
                         if not any(r.get(col) == val for r in got): bad.append((name, handle, "filtered scan loses the appended row", col))
                     except Exception as e:
                         bad.append((name, handle, "filtered scan fails", col, type(e).__name__))
+    # re-numbered ids on two columns of ONE type: bounds written under the other column's id -> filtered scans lose the row
+    p = os.path.join(root, "swap2"); t = create_table(p, schema=S(1, [F(1, "a", "long"), F(2, "c", "long")])); t.append_records([{"a": 1, "c": 100}])
+    try:
+        load_table(p).append_records([{"a": 5, "c": 500}], schema=S(1, [F(2, "a", "long"), F(1, "c", "long")]))
+        got = load_table(p).scan(filter={"a": 5})
+        if not any(r.get("a") == 5 for r in got): bad.append(("re-numbered ids accepted: filtered scan loses the appended row", got))
+    except ValueError:
+        pass
+    # a fractional float later in a batch whose first record holds an int / None / nothing for that column
+    for first in ({"v": 7}, {"v": None}, {}):
+        p = os.path.join(root, "mix%d" % len(first) + str(first.get("v"))); t = create_table(p, schema=S(1, [F(1, "v", "long")]))
+        try:
+            t.append_records([first, {"v": 2.75}])
+            got = [r["v"] for r in load_table(p).scan()]
+            if 2.75 not in got: bad.append(("fractional float after a non-float first record silently altered", first, got))
+        except Exception:
+            pass
     # value classes on typed columns: accepted => returned exactly; unrepresentable => rejected
     cases = [("long", 2**63 - 1, True), ("long", -2**63, True), ("long", 2**63, False), ("long", 1.5, False), ("long", "7", False),
              ("int", 2**31 - 1, True), ("int", 2**31, False), ("double", float("inf"), True), ("double", 1e308, True),
@@ -396,6 +445,8 @@ register(Unit(P, "CACHE/create_arrow_schema", h_arrow_cache, functions=[f"{DO}:D
 register(Unit(P, "FILE-SCHEMA/_validate_file_schema", h_file_schema, functions=[f"{TX}:Transaction._validate_file_schema"], replay=_replay_c11))
 register(Unit(P, "STRICT/validate_records_strict(1-field,1-record:bounded-sizes)", h_strict, functions=[f"{DO}:DataFileManager.validate_records_strict"], replay=_replay_c11,
               note="bounded: schema of one field and one single-key record; all names and values symbolic"))
+register(Unit(P, "STRICT/validate_records_strict(second-record:bounded-sizes)", h_strict_second_record, functions=[f"{DO}:DataFileManager.validate_records_strict"], replay=_replay_c11,
+              note="bounded: one integer column, two records"))
 register(Unit(P, "REJECT-CLEAN/append_data", cp.h_append_data, functions=[f"{TX}:Transaction.append_data"], replay=_replay_c11))
 
 # "no accepted append can make later scans mis-filter": the column bounds written with an accepted file are sound (C13 unit)
